@@ -18,8 +18,9 @@ VARIABLES out,    \* [Ctrl -> "idle" | "big" | "small"]  the request of c that i
           owner,  \* [buffer -> Ctrl]  whose response the buffer holds NOW
           sent,   \* [Ctrl -> Nat]     chunks written so far
           tags,   \* [Ctrl -> Seq(Ctrl)]  for every chunk written: whose content it carried
+          cut,    \* [Ctrl -> BOOLEAN]   an EVENT message was written between two chunks of the response in flight
           last
-vars == <<out, buf, owner, sent, tags, last>>
+vars == <<out, buf, owner, sent, tags, cut, last>>
 Guard(g) == g \notin Weak
 Buffers == Ctrl \cup {"pool"}
 \* kinds: "big" = GET /accessories (the handler holds the server mutex while it writes: a second one waits for the first,
@@ -29,27 +30,34 @@ Chunks(k) == 3
 Window == 1
 
 Init == /\ out = [c \in Ctrl |-> "idle"] /\ buf = [c \in Ctrl |-> c] /\ owner = [b \in Buffers |-> "none"]
-        /\ sent = [c \in Ctrl |-> 0] /\ tags = [c \in Ctrl |-> <<>>] /\ last = [a |-> "none", c |-> "none", k |-> "none", ok |-> TRUE]
+        /\ sent = [c \in Ctrl |-> 0] /\ tags = [c \in Ctrl |-> <<>>] /\ cut = [c \in Ctrl |-> FALSE] /\ last = [a |-> "none", c |-> "none", k |-> "none", ok |-> TRUE]
 
 \* the controller sends a request; the handler encodes the response into a buffer
 Send(c, k) == /\ out[c] = "idle" /\ out' = [out EXCEPT ![c] = k]
               /\ k = "big" => \A x \in Ctrl : out[x] # "big"
               /\ LET b == IF Guard("buffer_owned_until_written") THEN c ELSE "pool" IN
                  /\ buf' = [buf EXCEPT ![c] = b] /\ owner' = [owner EXCEPT ![b] = c]
-              /\ sent' = [sent EXCEPT ![c] = 0] /\ tags' = [tags EXCEPT ![c] = <<>>]
+              /\ sent' = [sent EXCEPT ![c] = 0] /\ tags' = [tags EXCEPT ![c] = <<>>] /\ UNCHANGED cut
               /\ last' = [a |-> "Send", c |-> c, k |-> k, ok |-> TRUE]
 \* the server writes the next chunk as long as the socket takes it (internal step)
 Write(c) == /\ out[c] # "idle" /\ sent[c] < Chunks(out[c]) /\ sent[c] < Window
             /\ sent' = [sent EXCEPT ![c] = @ + 1] /\ tags' = [tags EXCEPT ![c] = Append(@, owner[buf[c]])]
-            /\ last' = [a |-> "Write", c |-> c, k |-> out[c], ok |-> TRUE] /\ UNCHANGED <<out, buf, owner>>
+            /\ last' = [a |-> "Write", c |-> c, k |-> out[c], ok |-> TRUE] /\ UNCHANGED <<out, buf, owner, cut>>
 \* the controller reads its response to the end: the remaining chunks are written and delivered
 Receive(c) == /\ out[c] # "idle" /\ sent[c] >= (IF Chunks(out[c]) < Window THEN Chunks(out[c]) ELSE Window)
               /\ LET rest == [i \in 1..(Chunks(out[c]) - sent[c]) |-> owner[buf[c]]]
                      all == tags[c] \o rest IN
-                 last' = [a |-> "Receive", c |-> c, k |-> out[c], ok |-> \A i \in 1..Len(all) : all[i] = c]
+                 last' = [a |-> "Receive", c |-> c, k |-> out[c], ok |-> (~cut[c] /\ \A i \in 1..Len(all) : all[i] = c)]
               /\ out' = [out EXCEPT ![c] = "idle"] /\ sent' = [sent EXCEPT ![c] = 0] /\ tags' = [tags EXCEPT ![c] = <<>>]
+              /\ cut' = [cut EXCEPT ![c] = FALSE]
               /\ UNCHANGED <<buf, owner>>
-Next == \E c \in Ctrl : (\E k \in {"big", "small"} : Send(c, k)) \/ Write(c) \/ Receive(c)
+\* The application changes a value every controller is subscribed to.  A controller whose response is in flight gets its
+\* EVENT message after the response (guard notifications_wait_for_response); without the guard the message is written
+\* between two chunks of the response, which the controller then cannot parse.
+Event == /\ cut' = [c \in Ctrl |-> cut[c] \/ (out[c] # "idle" /\ sent[c] < Chunks(out[c]) /\ ~Guard("notifications_wait_for_response"))]
+         /\ last' = [a |-> "Event", c |-> "app", k |-> "none", ok |-> TRUE]
+         /\ UNCHANGED <<out, buf, owner, sent, tags>>
+Next == (\E c \in Ctrl : (\E k \in {"big", "small"} : Send(c, k)) \/ Write(c) \/ Receive(c)) \/ Event
 Spec == Init /\ [][Next]_vars
 
 \* ---- C09 under concurrency: every response carries its own content from the first to the last chunk
